@@ -58,6 +58,23 @@ def run(ctx: Ctx) -> None:
     untouched = list(d.keys()) == h["snap"][0] and d["Items"] is h["snap"][1] and list(d["Items"][1].keys()) == h["snap"][2] and o.value is not d and isinstance(o.value, dict) and o.value.get("items", o.value.get("Items")) is not d["Items"]
     ctx.check(untouched, "W1", "argument untouched, new containers", lq, "", "convert_lowercase modified or returned (part of) its argument")
 
+    # one object referenced from two places (a STYLE appended to two CLASSes, layer["extent"] = map["extent"]): no
+    # cycle, and both occurrences are part of the JSON form
+    def mk_shared():
+        style = HDict({"Color": [SNum.sym("r", None, None)], "Name": SStr.atom("S")})
+        ext = [SNum.sym("e0", None, None), SNum.sym("e1", None, None)]
+        d = HDict({"Extent": ext, "Classes": [HDict({"Styles": [style]}), HDict({"Styles": [style]})], "Layer": HDict({"Extent": ext})})
+        return V(), [d], {}
+
+    outs = I.explore(q, mk_shared)
+    o = outs[0]
+    r = o.value if o.kind == "return" else None
+    try:
+        good = isinstance(r, dict) and [list(c["styles"][0].keys()) for c in r["classes"]] == [["color", "name"], ["color", "name"]] and r["classes"][1]["styles"][0]["name"] == SStr.atom("S").lower() and isinstance(r["layer"]["extent"], list) and len(r["layer"]["extent"]) == 2 and len(r["extent"]) == 2
+    except (KeyError, TypeError, IndexError, AttributeError):
+        good = False
+    ctx.check(good, "W1", "an object referenced twice (no cycle) is converted at both places", lq, "", f"a dictionary in which one STYLE object belongs to two CLASSes and one EXTENT list to MAP and LAYER is converted to {r!r} ({o.exc or ''}): the second occurrence is not the lower-cased copy of the object, so valid input gets messages and faults in it are missed")
+
     # ---- W2 --------------------------------------------------------------------------------------------
     ctx.rule("W2", "every object schema of a block type admits hidden keys; every $ref names an existing schema file; the registry retrieves from the schemas folder", 40)
     for t in S.types():
